@@ -182,14 +182,14 @@ theorem attachStep_total {d : Dir} {kind : Nat} {p : Array Pos} {i j : Nat}
 
 /-! ### propagate: case analysis -/
 
-
-theorem propagate_ok_cases {fuel : Nat} {p q : Array Pos} {len i dep : Nat} {d : Dir}
-    (h : propagate (fuel + 1) p len i d = .ok (q, dep)) :
+theorem propagate_ok_cases {p q : Array Pos} {len i dep nl : Nat} {d : Dir}
+    (h : propagate p len i d nl = .ok (q, dep)) :
     ∃ pi, p[i]? = some pi ∧
      ( (pi.chain = 0 ∧ q = p ∧ dep = 1)
-     ∨ (pi.chain ≠ 0 ∧ target i pi.chain len = none ∧ q = put p i { pi with chain := 0 } ∧ dep = 1)
-     ∨ (pi.chain ≠ 0 ∧ ∃ j p2 dep', target i pi.chain len = some j ∧
-          propagate fuel (put p i { pi with chain := 0 }) len j d = .ok (p2, dep') ∧
+     ∨ (pi.chain ≠ 0 ∧ q = put p i { pi with chain := 0 } ∧ dep = 1 ∧
+          (target i pi.chain len = none ∨ nl = 0))
+     ∨ (pi.chain ≠ 0 ∧ ∃ j nl' p2 dep', target i pi.chain len = some j ∧ nl = nl' + 1 ∧
+          propagate (put p i { pi with chain := 0 }) len j d nl' = .ok (p2, dep') ∧
           attachStep d pi.atype p2 i j = .ok q ∧ dep = dep' + 1)) := by
   unfold propagate at h
   split at h
@@ -205,17 +205,21 @@ theorem propagate_ok_cases {fuel : Nat} {p q : Array Pos} {len i dep : Nat} {d :
       split at h
       · rename_i ht
         simp only [Except.ok.injEq, Prod.mk.injEq] at h
-        exact Or.inr (Or.inl ⟨hc, ht, h.1.symm, h.2.symm⟩)
+        exact Or.inr (Or.inl ⟨hc, h.1.symm, h.2.symm, Or.inl ht⟩)
       · rename_i j ht
         split at h
-        · cases h
-        · rename_i p2 dep' hr
+        · simp only [Except.ok.injEq, Prod.mk.injEq] at h
+          exact Or.inr (Or.inl ⟨hc, h.1.symm, h.2.symm, Or.inr rfl⟩)
+        · rename_i nl'
           split at h
           · cases h
-          · rename_i q' ha
-            simp only [Except.ok.injEq, Prod.mk.injEq] at h
-            refine Or.inr (Or.inr ⟨hc, j, p2, dep', ht, hr, ?_, h.2.symm⟩)
-            rw [ha, h.1]
+          · rename_i p2 dep' hr
+            split at h
+            · cases h
+            · rename_i q' ha
+              simp only [Except.ok.injEq, Prod.mk.injEq] at h
+              refine Or.inr (Or.inr ⟨hc, j, nl', p2, dep', ht, rfl, hr, ?_, h.2.symm⟩)
+              rw [ha, h.1]
 
 theorem target_some {i : Nat} {c : Int} {len j : Nat} (h : target i c len = some j) :
     (j : Int) = (i : Int) + c ∧ j < len := by
@@ -228,9 +232,7 @@ theorem target_some {i : Nat} {c : Int} {len j : Nat} (h : target i c len = some
     · simp only [Option.some.injEq] at h
       omega
 
-
-/-! ### propagate: sizes, frame, fuel and depth -/
-
+/-! ### propagate: sizes, frame and depth -/
 
 /-- the fields `propagate` never changes, and the only way it changes `chain` -/
 def Stable (b b' : Pos) : Prop :=
@@ -244,108 +246,113 @@ theorem Stable.trans {a b c : Pos} (h1 : Stable a b) (h2 : Stable b c) : Stable 
   refine ⟨by omega, by omega, by omega, ?_⟩
   rcases a4 with a4 | a4 <;> rcases b4 with b4 | b4 <;> simp_all
 
-theorem propagate_basic (len : Nat) (d : Dir) :
-    ∀ (fuel : Nat) (p q : Array Pos) (i dep : Nat), propagate fuel p len i d = .ok (q, dep) →
-      q.size = p.size ∧ nz q ≤ nz p ∧ 1 ≤ dep ∧ dep ≤ nz p + 1 ∧
-      (∀ (k : Nat) (b : Pos), p[k]? = some b → b.chain = 0 → q[k]? = some b) ∧
-      (∀ (k : Nat) (b : Pos), p[k]? = some b → ∃ b', q[k]? = some b' ∧ Stable b b') ∧
-      (∀ b : Pos, q[i]? = some b → b.chain = 0) := by
-  intro fuel
-  induction fuel with
-  | zero => intro p q i dep h; simp [propagate] at h
-  | succ fuel ih =>
-    intro p q i dep h
-    obtain ⟨pi, hpi, hcase⟩ := propagate_ok_cases h
-    have hisz := lt_of_get? hpi
-    rcases hcase with ⟨hc, rfl, rfl⟩ | ⟨hc, _, rfl, rfl⟩ | ⟨hc, j, p2, dep', ht, hrec, hatt, rfl⟩
-    · refine ⟨rfl, Nat.le_refl _, Nat.le_refl _, by omega, fun k b hk _ => hk, fun k b hk => ⟨b, hk, Stable.refl b⟩, ?_⟩
-      intro b hb; rw [hpi] at hb; cases hb; exact hc
-    · have hnz := nz_put (v := { pi with chain := 0 }) hpi
-      simp only [bne_iff_ne, ne_eq, hc, not_false_eq_true, if_true, not_true_eq_false, if_false] at hnz
-      refine ⟨by simp, by omega, Nat.le_refl _, by omega, ?_, ?_, ?_⟩
-      · intro k b hk hb
-        have : i ≠ k := by intro e; subst e; rw [hpi] at hk; cases hk; exact hc hb
-        rw [put_get?_ne _ _ this]; exact hk
-      · intro k b hk
-        by_cases e : i = k
-        · subst e; rw [hpi] at hk; cases hk
-          exact ⟨_, put_get?_self _ _ hisz, rfl, rfl, rfl, Or.inr rfl⟩
-        · exact ⟨b, by rw [put_get?_ne _ _ e]; exact hk, Stable.refl b⟩
-      · intro b hb; rw [put_get?_self _ _ hisz] at hb; cases hb; rfl
-    · have hnz := nz_put (v := { pi with chain := 0 }) hpi
-      simp only [bne_iff_ne, ne_eq, hc, not_false_eq_true, if_true, not_true_eq_false, if_false] at hnz
-      obtain ⟨hs2, hnz2, hd1, hd2, hfr2, hst2, _⟩ := ih _ _ _ _ hrec
-      have hp1i : (put p i { pi with chain := 0 })[i]? = some { pi with chain := 0 } := put_get?_self _ _ hisz
-      have hp2i : p2[i]? = some { pi with chain := 0 } := hfr2 i _ hp1i rfl
-      obtain ⟨hj, hjlen⟩ := target_some ht
-      have hjne : j ≠ i := by
-        intro e; subst e
-        have : pi.chain = 0 := by omega
-        exact hc this
-      -- p2[j] exists?  attachStep may return p2 unchanged without reading j, so go by cases on q
-      have hqshape : q = p2 ∨ ∃ v, q = put p2 i v ∧ Stable { pi with chain := 0 } v := by
-        unfold attachStep at hatt
-        have hgi := get_ok_iff.mpr hp2i
-        split at hatt
-        · rw [hgi] at hatt
-          split at hatt
-          · rename_i e _ he; cases he
-          · cases hatt
-          · rename_i qi qj hq1 hq2
-            cases hq1
-            split at hatt
-            · cases hatt
-            · split at hatt
-              · split at hatt
-                · cases hatt
-                · simp only [Except.ok.injEq] at hatt
-                  exact Or.inr ⟨_, hatt.symm, rfl, rfl, rfl, Or.inl rfl⟩
-              · split at hatt
-                · cases hatt
-                · simp only [Except.ok.injEq] at hatt
-                  exact Or.inr ⟨_, hatt.symm, rfl, rfl, rfl, Or.inl rfl⟩
+/-- what every successful `propagate` call guarantees, whatever the array looks like -/
+def Basic (nl : Nat) (p q : Array Pos) (i dep : Nat) : Prop :=
+  q.size = p.size ∧ nz q ≤ nz p ∧ 1 ≤ dep ∧ dep ≤ nz p + 1 ∧ dep ≤ nl + 1 ∧
+  (∀ (k : Nat) (b : Pos), p[k]? = some b → b.chain = 0 → q[k]? = some b) ∧
+  (∀ (k : Nat) (b : Pos), p[k]? = some b → ∃ b', q[k]? = some b' ∧ Stable b b') ∧
+  (∀ b : Pos, q[i]? = some b → b.chain = 0)
+
+theorem attachStep_shape {d : Dir} {kind : Nat} {p2 q : Array Pos} {i j : Nat} {x : Pos}
+    (hp2i : p2[i]? = some x) (hatt : attachStep d kind p2 i j = .ok q) :
+    q = p2 ∨ ∃ v, q = put p2 i v ∧ Stable x v ∧ v.chain = x.chain := by
+  unfold attachStep at hatt
+  have hgi := get_ok_iff.mpr hp2i
+  split at hatt
+  · rw [hgi] at hatt
+    split at hatt
+    · rename_i e _ he; cases he
+    · cases hatt
+    · rename_i qi qj hq1 hq2
+      cases hq1
+      split at hatt
+      · cases hatt
+      · split at hatt
         · split at hatt
-          · rw [hgi] at hatt
-            split at hatt
-            · rename_i e _ he; cases he
-            · cases hatt
-            · rename_i qi qj hq1 hq2
-              cases hq1
-              split at hatt
-              · simp only [Except.ok.injEq] at hatt
-                exact Or.inr ⟨_, hatt.symm, rfl, rfl, rfl, Or.inl rfl⟩
-              · simp only [Except.ok.injEq] at hatt
-                exact Or.inr ⟨_, hatt.symm, rfl, rfl, rfl, Or.inl rfl⟩
+          · cases hatt
           · simp only [Except.ok.injEq] at hatt
-            exact Or.inl hatt.symm
-      have hi2 : i < p2.size := by rw [hs2]; simpa using hisz
-      -- facts about q relative to p2
-      have hq : q.size = p2.size ∧ nz q = nz p2 ∧ (∀ k, k ≠ i → q[k]? = p2[k]?) ∧
-          ∃ v, q[i]? = some v ∧ Stable { pi with chain := 0 } v := by
-        rcases hqshape with rfl | ⟨v, rfl, hv⟩
-        · exact ⟨rfl, rfl, fun _ _ => rfl, _, hp2i, Stable.refl _⟩
-        · refine ⟨by simp, ?_, fun k hk => put_get?_ne _ _ (Ne.symm hk), v, put_get?_self _ _ hi2, hv⟩
-          have := nz_put (v := v) hp2i
-          obtain ⟨_, _, _, h4⟩ := hv
-          have hv0 : v.chain = 0 := by rcases h4 with h4 | h4 <;> simpa using h4
-          simp [hv0] at this
-          exact this
-      obtain ⟨hqs, hqnz, hqne, v, hqi, hv⟩ := hq
-      refine ⟨by rw [hqs, hs2]; simp, by omega, by omega, by omega, ?_, ?_, ?_⟩
-      · intro k b hk hb
-        have hki : k ≠ i := by intro e; subst e; rw [hpi] at hk; cases hk; exact hc hb
-        rw [hqne k hki]
-        exact hfr2 k b (by rw [put_get?_ne _ _ (Ne.symm hki)]; exact hk) hb
-      · intro k b hk
-        by_cases e : k = i
-        · subst e; rw [hpi] at hk; cases hk
-          refine ⟨v, hqi, ?_⟩
-          exact Stable.trans (b := { pi with chain := 0 }) ⟨rfl, rfl, rfl, Or.inr rfl⟩ hv
-        · obtain ⟨b', hb', hst⟩ := hst2 k b (by rw [put_get?_ne _ _ (Ne.symm e)]; exact hk)
-          exact ⟨b', by rw [hqne k e]; exact hb', hst⟩
-      · intro b hb; rw [hqi] at hb; cases hb
-        obtain ⟨_, _, _, h4⟩ := hv
-        rcases h4 with h4 | h4 <;> simpa using h4
+            exact Or.inr ⟨_, hatt.symm, ⟨rfl, rfl, rfl, Or.inl rfl⟩, rfl⟩
+        · split at hatt
+          · cases hatt
+          · simp only [Except.ok.injEq] at hatt
+            exact Or.inr ⟨_, hatt.symm, ⟨rfl, rfl, rfl, Or.inl rfl⟩, rfl⟩
+  · split at hatt
+    · rw [hgi] at hatt
+      split at hatt
+      · rename_i e _ he; cases he
+      · cases hatt
+      · rename_i qi qj hq1 hq2
+        cases hq1
+        split at hatt
+        · simp only [Except.ok.injEq] at hatt
+          exact Or.inr ⟨_, hatt.symm, ⟨rfl, rfl, rfl, Or.inl rfl⟩, rfl⟩
+        · simp only [Except.ok.injEq] at hatt
+          exact Or.inr ⟨_, hatt.symm, ⟨rfl, rfl, rfl, Or.inl rfl⟩, rfl⟩
+    · simp only [Except.ok.injEq] at hatt
+      exact Or.inl hatt.symm
+
+theorem propagate_basic_step (len : Nat) (d : Dir) (nl : Nat)
+    (ih : ∀ nl', nl = nl' + 1 → ∀ (p q : Array Pos) (i dep : Nat),
+      propagate p len i d nl' = .ok (q, dep) → Basic nl' p q i dep) :
+    ∀ (p q : Array Pos) (i dep : Nat), propagate p len i d nl = .ok (q, dep) → Basic nl p q i dep := by
+  intro p q i dep h
+  obtain ⟨pi, hpi, hcase⟩ := propagate_ok_cases h
+  have hisz := lt_of_get? hpi
+  rcases hcase with ⟨hc, rfl, rfl⟩ | ⟨hc, rfl, rfl, _⟩ | ⟨hc, j, nl', p2, dep', ht, rfl, hrec, hatt, rfl⟩
+  · refine ⟨rfl, Nat.le_refl _, Nat.le_refl _, by omega, by omega, fun k b hk _ => hk,
+      fun k b hk => ⟨b, hk, Stable.refl b⟩, ?_⟩
+    intro b hb; rw [hpi] at hb; cases hb; exact hc
+  · have hnz := nz_put (v := { pi with chain := 0 }) hpi
+    simp only [bne_iff_ne, ne_eq, hc, not_false_eq_true, if_true, not_true_eq_false, if_false] at hnz
+    refine ⟨by simp, by omega, Nat.le_refl _, by omega, by omega, ?_, ?_, ?_⟩
+    · intro k b hk hb
+      have : i ≠ k := by intro e; subst e; rw [hpi] at hk; cases hk; exact hc hb
+      rw [put_get?_ne _ _ this]; exact hk
+    · intro k b hk
+      by_cases e : i = k
+      · subst e; rw [hpi] at hk; cases hk
+        exact ⟨_, put_get?_self _ _ hisz, rfl, rfl, rfl, Or.inr rfl⟩
+      · exact ⟨b, by rw [put_get?_ne _ _ e]; exact hk, Stable.refl b⟩
+    · intro b hb; rw [put_get?_self _ _ hisz] at hb; cases hb; rfl
+  · have hnz := nz_put (v := { pi with chain := 0 }) hpi
+    simp only [bne_iff_ne, ne_eq, hc, not_false_eq_true, if_true, not_true_eq_false, if_false] at hnz
+    obtain ⟨hs2, hnz2, hd1, hd2, hd3, hfr2, hst2, _⟩ := ih nl' rfl _ _ _ _ hrec
+    have hp1i : (put p i { pi with chain := 0 })[i]? = some { pi with chain := 0 } := put_get?_self _ _ hisz
+    have hp2i : p2[i]? = some { pi with chain := 0 } := hfr2 i _ hp1i rfl
+    have hi2 : i < p2.size := by rw [hs2]; simpa using hisz
+    have hq : q.size = p2.size ∧ nz q = nz p2 ∧ (∀ k, k ≠ i → q[k]? = p2[k]?) ∧
+        ∃ v, q[i]? = some v ∧ Stable { pi with chain := 0 } v ∧ v.chain = 0 := by
+      rcases attachStep_shape hp2i hatt with rfl | ⟨v, rfl, hv, hv0⟩
+      · exact ⟨rfl, rfl, fun _ _ => rfl, _, hp2i, Stable.refl _, rfl⟩
+      · refine ⟨by simp, ?_, fun k hk => put_get?_ne _ _ (Ne.symm hk), v, put_get?_self _ _ hi2, hv, hv0⟩
+        have := nz_put (v := v) hp2i
+        simp only at hv0
+        simp [hv0] at this
+        exact this
+    obtain ⟨hqs, hqnz, hqne, v, hqi, hv, hv0⟩ := hq
+    refine ⟨by rw [hqs, hs2]; simp, by omega, by omega, by omega, by omega, ?_, ?_, ?_⟩
+    · intro k b hk hb
+      have hki : k ≠ i := by intro e; subst e; rw [hpi] at hk; cases hk; exact hc hb
+      rw [hqne k hki]
+      exact hfr2 k b (by rw [put_get?_ne _ _ (Ne.symm hki)]; exact hk) hb
+    · intro k b hk
+      by_cases e : k = i
+      · subst e; rw [hpi] at hk; cases hk
+        refine ⟨v, hqi, ?_⟩
+        exact Stable.trans (b := { pi with chain := 0 }) ⟨rfl, rfl, rfl, Or.inr rfl⟩ hv
+      · obtain ⟨b', hb', hst⟩ := hst2 k b (by rw [put_get?_ne _ _ (Ne.symm e)]; exact hk)
+        exact ⟨b', by rw [hqne k e]; exact hb', hst⟩
+    · intro b hb; rw [hqi] at hb; cases hb; exact hv0
+
+theorem propagate_basic (len : Nat) (d : Dir) :
+    ∀ (nl : Nat) (p q : Array Pos) (i dep : Nat), propagate p len i d nl = .ok (q, dep) → Basic nl p q i dep := by
+  intro nl
+  induction nl with
+  | zero => exact propagate_basic_step len d 0 (fun nl' h => by omega)
+  | succ n ih =>
+    exact propagate_basic_step len d (n + 1) (fun nl' h => by
+      have : nl' = n := by omega
+      subst this; exact ih)
 
 theorem sumAdv_err_oob {p : Array Pos} {lo n : Nat} {e : Err} (h : sumAdv p lo n = .error e) : e = .oob := by
   induction n generalizing lo with
@@ -357,59 +364,6 @@ theorem sumAdv_err_oob {p : Array Pos} {lo n : Nat} {e : Err} (h : sumAdv p lo n
     · split at h
       · rename_i hx; cases h; exact ih hx
       · cases h
-
-theorem attachStep_err {d : Dir} {kind : Nat} {p : Array Pos} {i j : Nat} {e : Err}
-    (h : attachStep d kind p i j = .error e) : e ≠ .fuel := by
-  unfold attachStep at h
-  split at h
-  · split at h
-    · rename_i hx; cases h; rw [(get_err hx).1]; decide
-    · rename_i h1 h2; cases h; first | (rw [(get_err h1).1]; decide) | (rw [(get_err h2).1]; decide)
-    · split at h
-      · cases h; decide
-      · split at h
-        · split at h
-          · rename_i hx; cases h; rw [sumAdv_err_oob hx]; decide
-          · cases h
-        · split at h
-          · rename_i hx; cases h; rw [sumAdv_err_oob hx]; decide
-          · cases h
-  · split at h
-    · split at h
-      · rename_i hx; cases h; rw [(get_err hx).1]; decide
-      · rename_i h1 h2; cases h; first | (rw [(get_err h1).1]; decide) | (rw [(get_err h2).1]; decide)
-      · split at h <;> cases h
-    · cases h
-
-theorem propagate_fuel (len : Nat) (d : Dir) :
-    ∀ (fuel : Nat) (p : Array Pos) (i : Nat), nz p < fuel → propagate fuel p len i d ≠ .error .fuel := by
-  intro fuel
-  induction fuel with
-  | zero => intro p i h; omega
-  | succ fuel ih =>
-    intro p i hf
-    unfold propagate
-    split
-    · rename_i e he; intro h; cases h; have := (get_err he).1; cases this
-    · rename_i pi hg
-      have hpi := get_ok_iff.mp hg
-      split
-      · intro h; cases h
-      · rename_i hc
-        have hnz := nz_put (v := { pi with chain := 0 }) hpi
-        simp only [bne_iff_ne, ne_eq, hc, not_false_eq_true, if_true, not_true_eq_false, if_false] at hnz
-        simp only
-        split
-        · intro h; cases h
-        · rename_i j _
-          have := ih (put p i { pi with chain := 0 }) j (by omega)
-          split
-          · rename_i e he; intro h; cases h; exact this he
-          · rename_i p2 dep' _
-            split
-            · rename_i e he; intro h; cases h
-              exact attachStep_err he rfl
-            · intro h; cases h
 
 
 /-! ### propagate: functional specification -/
@@ -469,136 +423,183 @@ theorem attachOff_congr (d : Dir) (kind : Nat) (a a' c : Pos) (sf sb : Int × In
 
 
 
-theorem propagate_inv (d : Dir) (o : Array Pos) (len : Nat) (rank : Nat → Nat) (hlen : len ≤ o.size)
+/-- the nesting budget a node needs, as a function of the current state: `need` decreases along every link
+    between two glyphs whose links are still pending (a glyph whose link is already resolved costs one frame) -/
+def Hneed (len : Nat) (need : Nat → Nat) (p : Array Pos) : Prop :=
+  ∀ (k : Nat) (b : Pos) (j : Nat), p[k]? = some b → b.chain ≠ 0 → target k b.chain len = some j →
+    1 ≤ need k ∧ ∀ c : Pos, p[j]? = some c → c.chain ≠ 0 → need j < need k
+
+theorem Hneed.mono {len : Nat} {need : Nat → Nat} {p q : Array Pos} (h : Hneed len need p)
+    (hst : ∀ (k : Nat) (b' : Pos), q[k]? = some b' → b'.chain ≠ 0 → p[k]? = some b') : Hneed len need q := by
+  intro k b j hk hc ht
+  obtain ⟨h1, h2⟩ := h k b j (hst k b hk hc) hc ht
+  exact ⟨h1, fun c hcj hc0 => h2 c (hst j c hcj hc0) hc0⟩
+
+/-- entries of `q` with a pending link are entries of `p`, for `q` reached from `p` by `propagate` steps -/
+theorem pending_of_stable {p q : Array Pos}
+    (hs : q.size = p.size)
+    (hst : ∀ (k : Nat) (b : Pos), p[k]? = some b → ∃ b', q[k]? = some b' ∧ Stable b b')
+    (hxy : ∀ (k : Nat) (b b' : Pos), p[k]? = some b → q[k]? = some b' → b'.chain ≠ 0 → b' = b) :
+    ∀ (k : Nat) (b' : Pos), q[k]? = some b' → b'.chain ≠ 0 → p[k]? = some b' := by
+  intro k b' hk hc
+  have hkp : k < p.size := by rw [← hs]; exact lt_of_get? hk
+  have hpk : p[k]? = some p[k] := by simp [hkp]
+  rw [hxy k p[k] b' hpk hk hc]; exact hpk
+
+theorem propagate_inv_step (d : Dir) (o : Array Pos) (len : Nat) (rank need : Nat → Nat) (hlen : len ≤ o.size)
     (hacyc : ∀ (k : Nat) (a : Pos) (j : Nat), o[k]? = some a → a.chain ≠ 0 → target k a.chain len = some j → rank j < rank k)
     (hmark : ∀ (k : Nat) (a : Pos) (j : Nat), o[k]? = some a → a.chain ≠ 0 → a.atype = ATTACH_MARK →
-      target k a.chain len = some j → j < k) :
-    ∀ (fuel : Nat) (p : Array Pos) (i B : Nat), nz p < fuel → i < len → rank i < B → Same o p → InvB d o len rank B p →
-      ∃ q dep, propagate fuel p len i d = .ok (q, dep) ∧ Same o q ∧ InvB d o len rank B q ∧
+      target k a.chain len = some j → j < k)
+    (nl : Nat)
+    (ih : ∀ nl', nl = nl' + 1 → ∀ (p : Array Pos) (i B : Nat), i < len → rank i < B → Same o p →
+      InvB d o len rank B p → Hneed len need p → (∀ b : Pos, p[i]? = some b → b.chain ≠ 0 → need i ≤ nl') →
+      ∃ q dep, propagate p len i d nl' = .ok (q, dep) ∧ Same o q ∧ InvB d o len rank B q ∧
+        (∀ k, rank i < rank k → q[k]? = p[k]?)) :
+    ∀ (p : Array Pos) (i B : Nat), i < len → rank i < B → Same o p →
+      InvB d o len rank B p → Hneed len need p → (∀ b : Pos, p[i]? = some b → b.chain ≠ 0 → need i ≤ nl) →
+      ∃ q dep, propagate p len i d nl = .ok (q, dep) ∧ Same o q ∧ InvB d o len rank B q ∧
         (∀ k, rank i < rank k → q[k]? = p[k]?) := by
-  intro fuel
-  induction fuel with
-  | zero => intro p i B h; omega
-  | succ fuel ih =>
-    intro p i B hfuel hi hB hsame hinv
-    have hisz : i < p.size := by rw [hsame.1]; omega
-    have hpi : p[i]? = some p[i] := by simp [hisz]
-    generalize p[i] = pi at hpi
-    unfold propagate
-    rw [get_ok_iff.mpr hpi]
-    simp only
-    by_cases hc : pi.chain = 0
-    · simp only [hc, if_true]
-      exact ⟨p, 1, rfl, hsame, hinv, fun _ _ => rfl⟩
-    · simp only [hc, if_false]
-      -- node i is untouched
-      have hoi : o[i]? = some pi := by
-        rcases hinv i pi hB hpi with h | ⟨a, _, h0, _⟩
-        · exact h
-        · exact absurd h0 hc
-      have hnz := nz_put (v := { pi with chain := 0 }) hpi
-      simp only [bne_iff_ne, ne_eq, hc, not_false_eq_true, if_true, not_true_eq_false, if_false] at hnz
-      let p1 := put p i { pi with chain := 0 }
-      have hnz1 : nz p1 + 1 = nz p := hnz
-      have hp1i : p1[i]? = some { pi with chain := 0 } := put_get?_self _ _ hisz
-      have hp1ne : ∀ k, k ≠ i → p1[k]? = p[k]? := fun k hk => put_get?_ne _ _ (Ne.symm hk)
-      have hsame1 : Same o p1 := by
-        refine ⟨by simp [p1, hsame.1], ?_⟩
+  intro p i B hi hB hsame hinv hneed hbud
+  have hisz : i < p.size := by rw [hsame.1]; omega
+  have hpi : p[i]? = some p[i] := by simp [hisz]
+  generalize p[i] = pi at hpi
+  unfold propagate
+  rw [get_ok_iff.mpr hpi]
+  simp only
+  by_cases hc : pi.chain = 0
+  · simp only [hc, if_true]
+    exact ⟨p, 1, rfl, hsame, hinv, fun _ _ => rfl⟩
+  · simp only [hc, if_false]
+    have hoi : o[i]? = some pi := by
+      rcases hinv i pi hB hpi with h | ⟨a, _, h0, _⟩
+      · exact h
+      · exact absurd h0 hc
+    let p1 := put p i { pi with chain := 0 }
+    have hp1i : p1[i]? = some { pi with chain := 0 } := put_get?_self _ _ hisz
+    have hp1ne : ∀ k, k ≠ i → p1[k]? = p[k]? := fun k hk => put_get?_ne _ _ (Ne.symm hk)
+    have hsame1 : Same o p1 := by
+      refine ⟨by simp [p1, hsame.1], ?_⟩
+      intro k a hk
+      by_cases e : k = i
+      · subst e; rw [hoi] at hk; cases hk
+        exact ⟨_, hp1i, rfl, rfl, rfl, Or.inr rfl⟩
+      · rw [hp1ne k e]; exact hsame.2 k a hk
+    have hkeep : ∀ (k : Nat) (b : Pos), k ≠ i → p[k]? = some b →
+        (o[k]? = some b ∨ ∃ a, o[k]? = some a ∧ b.chain = 0 ∧ RelAt d o len p k a b) →
+        (o[k]? = some b ∨ ∃ a, o[k]? = some a ∧ b.chain = 0 ∧ RelAt d o len p1 k a b) := by
+      intro k b _ _ h
+      rcases h with h | ⟨a, ha, hb0, hrel⟩
+      · exact Or.inl h
+      · refine Or.inr ⟨a, ha, hb0, hrel.transfer ?_⟩
+        intro j c _ _ hjc hc0
+        have : j ≠ i := by intro e; subst e; rw [hpi] at hjc; cases hjc; exact hc hc0
+        rw [hp1ne j this]; exact hjc
+    cases ht : target i pi.chain len with
+    | none =>
+      simp only
+      refine ⟨p1, 1, rfl, hsame1, ?_, fun k hk => hp1ne k (by intro e; subst e; omega)⟩
+      intro k b hkB hkb
+      by_cases e : k = i
+      · subst e; rw [hp1i] at hkb; cases hkb
+        refine Or.inr ⟨pi, hoi, rfl, ?_⟩
+        unfold RelAt; simp [hc, ht]
+      · rw [hp1ne k e] at hkb
+        exact hkeep k b e hkb (hinv k b hkB hkb)
+    | some j =>
+      simp only
+      obtain ⟨hn1, hn2⟩ := hneed i pi j hpi hc ht
+      have hb := hbud pi hpi hc
+      obtain ⟨nl', rfl⟩ : ∃ n, nl = n + 1 := ⟨nl - 1, by omega⟩
+      simp only
+      have hrj : rank j < rank i := hacyc i pi j hoi hc ht
+      obtain ⟨hjeq, hjlen⟩ := target_some ht
+      have hjne : j ≠ i := by intro e; subst e; exact hc (by omega)
+      have hinv1 : InvB d o len rank (rank i) p1 := by
+        intro k b hk hkb
+        have e : k ≠ i := by intro e; subst e; omega
+        rw [hp1ne k e] at hkb
+        exact hkeep k b e hkb (hinv k b (by omega) hkb)
+      have hneed1 : Hneed len need p1 := by
+        apply hneed.mono
+        intro k b' hk hc'
+        have e : k ≠ i := by intro e; subst e; rw [hp1i] at hk; cases hk; exact hc' rfl
+        rw [← hp1ne k e]; exact hk
+      have hbud1 : ∀ b : Pos, p1[j]? = some b → b.chain ≠ 0 → need j ≤ nl' := by
+        intro b hjb hb0
+        rw [hp1ne j hjne] at hjb
+        have := hn2 b hjb hb0
+        omega
+      obtain ⟨p2, dep', hrec, hsame2, hinv2, hframe2⟩ :=
+        ih nl' rfl p1 j (rank i) hjlen hrj hsame1 hinv1 hneed1 hbud1
+      obtain ⟨hs2, _, _, _, _, hfr2, _, hj0⟩ := propagate_basic len d _ _ _ _ _ hrec
+      rw [hrec]
+      simp only
+      have hp2i : p2[i]? = some { pi with chain := 0 } := by rw [hframe2 i hrj]; exact hp1i
+      have hi2 : i < p2.size := lt_of_get? hp2i
+      have hj2 : j < p2.size := by rw [hsame2.1]; omega
+      have hp2j : p2[j]? = some p2[j] := by simp [hj2]
+      generalize p2[j] = qj at hp2j
+      have hqj0 : qj.chain = 0 := hj0 qj hp2j
+      have hm : pi.atype = ATTACH_MARK → j < i := fun hk => hmark i pi j hoi hc hk ht
+      obtain ⟨q, hq⟩ := attachStep_total (d := d) (kind := pi.atype) hi2 hj2 hm
+      rw [hq]
+      simp only
+      obtain ⟨v, rfl, hv1, hv2, hv3, hv4, hv5, _⟩ := attachStep_spec hp2i hp2j hq
+      have hqi : (put p2 i v)[i]? = some v := put_get?_self _ _ hi2
+      have hqne : ∀ k, k ≠ i → (put p2 i v)[k]? = p2[k]? := fun k hk => put_get?_ne _ _ (Ne.symm hk)
+      refine ⟨_, _, rfl, ?_, ?_, ?_⟩
+      · refine ⟨by simp [hsame2.1], ?_⟩
         intro k a hk
         by_cases e : k = i
         · subst e; rw [hoi] at hk; cases hk
-          exact ⟨_, hp1i, rfl, rfl, rfl, Or.inr rfl⟩
-        · rw [hp1ne k e]; exact hsame.2 k a hk
-      -- Done/untouched nodes of p other than i keep their status in p1 (their targets are final, hence ≠ i)
-      have hkeep : ∀ (k : Nat) (b : Pos), k ≠ i → p[k]? = some b →
-          (o[k]? = some b ∨ ∃ a, o[k]? = some a ∧ b.chain = 0 ∧ RelAt d o len p k a b) →
-          (o[k]? = some b ∨ ∃ a, o[k]? = some a ∧ b.chain = 0 ∧ RelAt d o len p1 k a b) := by
-        intro k b _ _ h
-        rcases h with h | ⟨a, ha, hb0, hrel⟩
-        · exact Or.inl h
-        · refine Or.inr ⟨a, ha, hb0, hrel.transfer ?_⟩
-          intro j c _ _ hjc hc0
-          have : j ≠ i := by intro e; subst e; rw [hpi] at hjc; cases hjc; exact hc hc0
-          rw [hp1ne j this]; exact hjc
-      cases ht : target i pi.chain len with
-      | none =>
-        simp only
-        refine ⟨p1, 1, rfl, hsame1, ?_, fun k hk => hp1ne k (by intro e; subst e; omega)⟩
-        intro k b hkB hkb
+          exact ⟨v, hqi, hv1, hv2, hv4, Or.inr hv3⟩
+        · rw [hqne k e]; exact hsame2.2 k a hk
+      · intro k b hkB hkb
         by_cases e : k = i
-        · subst e; rw [hp1i] at hkb; cases hkb
-          refine Or.inr ⟨pi, hoi, rfl, ?_⟩
-          unfold RelAt; simp [hc, ht]
-        · rw [hp1ne k e] at hkb
-          exact hkeep k b e hkb (hinv k b hkB hkb)
-      | some j =>
-        simp only
-        have hrj : rank j < rank i := hacyc i pi j hoi hc ht
-        obtain ⟨hjeq, hjlen⟩ := target_some ht
-        have hjne : j ≠ i := by intro e; subst e; exact hc (by omega)
-        have hinv1 : InvB d o len rank (rank i) p1 := by
-          intro k b hk hkb
-          have e : k ≠ i := by intro e; subst e; omega
-          rw [hp1ne k e] at hkb
-          exact hkeep k b e hkb (hinv k b (by omega) hkb)
-        obtain ⟨p2, dep', hrec, hsame2, hinv2, hframe2⟩ := ih p1 j (rank i) (by omega) hjlen hrj hsame1 hinv1
-        obtain ⟨hs2, _, _, _, hfr2, _, hj0⟩ := propagate_basic len d _ _ _ _ _ hrec
-        rw [hrec]
-        simp only
-        have hp2i : p2[i]? = some { pi with chain := 0 } := by rw [hframe2 i hrj]; exact hp1i
-        have hi2 : i < p2.size := lt_of_get? hp2i
-        have hj2 : j < p2.size := by rw [hsame2.1]; omega
-        have hp2j : p2[j]? = some p2[j] := by simp [hj2]
-        generalize p2[j] = qj at hp2j
-        have hqj0 : qj.chain = 0 := hj0 qj hp2j
-        have hm : pi.atype = ATTACH_MARK → j < i := fun hk => hmark i pi j hoi hc hk ht
-        obtain ⟨q, hq⟩ := attachStep_total (d := d) (kind := pi.atype) hi2 hj2 hm
-        rw [hq]
-        simp only
-        obtain ⟨v, rfl, hv1, hv2, hv3, hv4, hv5, _⟩ := attachStep_spec hp2i hp2j hq
-        have hqi : (put p2 i v)[i]? = some v := put_get?_self _ _ hi2
-        have hqne : ∀ k, k ≠ i → (put p2 i v)[k]? = p2[k]? := fun k hk => put_get?_ne _ _ (Ne.symm hk)
-        refine ⟨_, _, rfl, ?_, ?_, ?_⟩
-        · -- Same
-          refine ⟨by simp [hsame2.1], ?_⟩
-          intro k a hk
-          by_cases e : k = i
-          · subst e; rw [hoi] at hk; cases hk
-            exact ⟨v, hqi, hv1, hv2, hv4, Or.inr hv3⟩
-          · rw [hqne k e]; exact hsame2.2 k a hk
-        · -- InvB
-          intro k b hkB hkb
-          by_cases e : k = i
-          · subst e; rw [hqi] at hkb; cases hkb
-            refine Or.inr ⟨pi, hoi, hv3, ?_⟩
-            unfold RelAt
-            simp only [hc, if_false, ht]
-            refine ⟨qj, by rw [hqne j hjne]; exact hp2j, hqj0, ?_⟩
-            rw [hv5, advSum_same hsame2, advSum_same hsame2]
-            exact attachOff_congr d pi.atype pi _ qj _ _ rfl rfl
-          · rw [hqne k e] at hkb
-            by_cases hrk : rank k < rank i
-            · rcases hinv2 k b hrk hkb with h | ⟨a, ha, hb0, hrel⟩
-              · exact Or.inl h
-              · refine Or.inr ⟨a, ha, hb0, hrel.transfer ?_⟩
-                intro j' c hac htj' hjc _
-                have : rank j' < rank k := hacyc k a j' ha hac htj'
-                have : j' ≠ i := by intro e; subst e; omega
-                rw [hqne j' this]; exact hjc
-            · have hk2 : p2[k]? = p[k]? := by rw [hframe2 k (by omega)]; exact hp1ne k e
-              rw [hk2] at hkb
-              rcases hinv k b hkB hkb with h | ⟨a, ha, hb0, hrel⟩
-              · exact Or.inl h
-              · refine Or.inr ⟨a, ha, hb0, hrel.transfer ?_⟩
-                intro j' c _ _ hjc hc0
-                have hne : j' ≠ i := by intro e; subst e; rw [hpi] at hjc; cases hjc; exact hc hc0
-                rw [hqne j' hne]
-                exact hfr2 j' c (by rw [hp1ne j' hne]; exact hjc) hc0
-        · intro k hk
-          have e : k ≠ i := by intro e; subst e; omega
-          rw [hqne k e, hframe2 k (by omega)]; exact hp1ne k e
+        · subst e; rw [hqi] at hkb; cases hkb
+          refine Or.inr ⟨pi, hoi, hv3, ?_⟩
+          unfold RelAt
+          simp only [hc, if_false, ht]
+          refine ⟨qj, by rw [hqne j hjne]; exact hp2j, hqj0, ?_⟩
+          rw [hv5, advSum_same hsame2, advSum_same hsame2]
+          exact attachOff_congr d pi.atype pi _ qj _ _ rfl rfl
+        · rw [hqne k e] at hkb
+          by_cases hrk : rank k < rank i
+          · rcases hinv2 k b hrk hkb with h | ⟨a, ha, hb0, hrel⟩
+            · exact Or.inl h
+            · refine Or.inr ⟨a, ha, hb0, hrel.transfer ?_⟩
+              intro j' c hac htj' hjc _
+              have : rank j' < rank k := hacyc k a j' ha hac htj'
+              have : j' ≠ i := by intro e; subst e; omega
+              rw [hqne j' this]; exact hjc
+          · have hk2 : p2[k]? = p[k]? := by rw [hframe2 k (by omega)]; exact hp1ne k e
+            rw [hk2] at hkb
+            rcases hinv k b hkB hkb with h | ⟨a, ha, hb0, hrel⟩
+            · exact Or.inl h
+            · refine Or.inr ⟨a, ha, hb0, hrel.transfer ?_⟩
+              intro j' c _ _ hjc hc0
+              have hne : j' ≠ i := by intro e; subst e; rw [hpi] at hjc; cases hjc; exact hc hc0
+              rw [hqne j' hne]
+              exact hfr2 j' c (by rw [hp1ne j' hne]; exact hjc) hc0
+      · intro k hk
+        have e : k ≠ i := by intro e; subst e; omega
+        rw [hqne k e, hframe2 k (by omega)]; exact hp1ne k e
 
-
+theorem propagate_inv (d : Dir) (o : Array Pos) (len : Nat) (rank need : Nat → Nat) (hlen : len ≤ o.size)
+    (hacyc : ∀ (k : Nat) (a : Pos) (j : Nat), o[k]? = some a → a.chain ≠ 0 → target k a.chain len = some j → rank j < rank k)
+    (hmark : ∀ (k : Nat) (a : Pos) (j : Nat), o[k]? = some a → a.chain ≠ 0 → a.atype = ATTACH_MARK →
+      target k a.chain len = some j → j < k) :
+    ∀ (nl : Nat) (p : Array Pos) (i B : Nat), i < len → rank i < B → Same o p →
+      InvB d o len rank B p → Hneed len need p → (∀ b : Pos, p[i]? = some b → b.chain ≠ 0 → need i ≤ nl) →
+      ∃ q dep, propagate p len i d nl = .ok (q, dep) ∧ Same o q ∧ InvB d o len rank B q ∧
+        (∀ k, rank i < rank k → q[k]? = p[k]?) := by
+  intro nl
+  induction nl with
+  | zero => exact propagate_inv_step d o len rank need hlen hacyc hmark 0 (fun nl' h => by omega)
+  | succ n ih =>
+    exact propagate_inv_step d o len rank need hlen hacyc hmark (n + 1) (fun nl' h => by
+      have : nl' = n := by omega
+      subst this; exact ih)
 
 theorem rank_bound (rank : Nat → Nat) (n : Nat) : ∃ B, ∀ k, k < n → rank k < B := by
   induction n with
@@ -612,15 +613,25 @@ theorem rank_bound (rank : Nat → Nat) (n : Nat) : ∃ B, ∀ k, k < n → rank
 
 theorem Same.refl (o : Array Pos) : Same o o := ⟨rfl, fun _ a h => ⟨a, h, Stable.refl a⟩⟩
 
-theorem finishLoop_inv (d : Dir) (o : Array Pos) (len : Nat) (rank : Nat → Nat) (B : Nat) (hlen : len ≤ o.size)
-    (hB : ∀ k, k < len → rank k < B)
+/-- `need i k`: nesting budget glyph `k` needs when the loop of `position_finish_offsets` is at index `i`
+    (all glyphs before `i` are resolved by then) -/
+def NeedOK (o : Array Pos) (len : Nat) (need : Nat → Nat → Nat) : Prop :=
+  (∀ (i k : Nat) (a : Pos) (j : Nat), i < len → i ≤ k → o[k]? = some a → a.chain ≠ 0 →
+      target k a.chain len = some j →
+      1 ≤ need i k ∧ ∀ c : Pos, i ≤ j → o[j]? = some c → c.chain ≠ 0 → need i j < need i k) ∧
+  (∀ i, i < len → need i i ≤ MAX_NESTING_LEVEL)
+
+theorem finishLoop_inv (d : Dir) (o : Array Pos) (len : Nat) (rank : Nat → Nat) (need : Nat → Nat → Nat) (B : Nat)
+    (hlen : len ≤ o.size) (hB : ∀ k, k < len → rank k < B)
     (hacyc : ∀ (k : Nat) (a : Pos) (j : Nat), o[k]? = some a → a.chain ≠ 0 → target k a.chain len = some j → rank j < rank k)
     (hmark : ∀ (k : Nat) (a : Pos) (j : Nat), o[k]? = some a → a.chain ≠ 0 → a.atype = ATTACH_MARK →
-      target k a.chain len = some j → j < k) :
+      target k a.chain len = some j → j < k)
+    (hneed : NeedOK o len need) :
     ∀ (n i : Nat) (p : Array Pos) (dmax : Nat), i + n ≤ len → Same o p → InvB d o len rank B p →
       (∀ (k : Nat) (b : Pos), k < i → p[k]? = some b → b.chain = 0) →
       ∃ q dm, finishLoop p len d i n dmax = .ok (q, dm) ∧ Same o q ∧ InvB d o len rank B q ∧
-        (∀ (k : Nat) (b : Pos), k < i + n → q[k]? = some b → b.chain = 0) ∧ dm ≤ max dmax (nz p + 1) := by
+        (∀ (k : Nat) (b : Pos), k < i + n → q[k]? = some b → b.chain = 0) ∧
+        dm ≤ max dmax (MAX_NESTING_LEVEL + 1) := by
   intro n
   induction n with
   | zero =>
@@ -628,10 +639,32 @@ theorem finishLoop_inv (d : Dir) (o : Array Pos) (len : Nat) (rank : Nat → Nat
     exact ⟨p, dmax, rfl, hs, hinv, hz, by omega⟩
   | succ n ih =>
     intro i p dmax hin hs hinv hz
-    have hfuel : nz p < fuelFor p := by have := nz_le_size p; unfold fuelFor; omega
+    -- a pending link in `p` is the original link, at an index ≥ i
+    have hpend : ∀ (k : Nat) (b : Pos), p[k]? = some b → b.chain ≠ 0 →
+        i ≤ k ∧ ∃ a, o[k]? = some a ∧ a.chain = b.chain := by
+      intro k b hk hc
+      refine ⟨?_, ?_⟩
+      · by_cases h : i ≤ k
+        · exact h
+        · exact absurd (hz k b (by omega) hk) hc
+      · have hko : k < o.size := by rw [← hs.1]; exact lt_of_get? hk
+        have hok : o[k]? = some o[k] := by simp [hko]
+        obtain ⟨b', hb', hst⟩ := hs.2 k _ hok
+        rw [hk] at hb'; cases hb'
+        rcases hst.2.2.2 with h | h
+        · exact ⟨_, hok, h.symm⟩
+        · exact absurd h hc
+    have hn : Hneed len (need i) p := by
+      intro k b j hk hc ht
+      obtain ⟨hik, a, hoa, hac⟩ := hpend k b hk hc
+      obtain ⟨h1, h2⟩ := hneed.1 i k a j (by omega) hik hoa (by rw [hac]; exact hc) (by rw [hac]; exact ht)
+      refine ⟨h1, fun c hjc hc0 => ?_⟩
+      obtain ⟨hij, a', hoa', hac'⟩ := hpend j c hjc hc0
+      exact h2 a' hij hoa' (by rw [hac']; exact hc0)
     obtain ⟨q1, dep, hprop, hs1, hinv1, _⟩ :=
-      propagate_inv d o len rank hlen hacyc hmark (fuelFor p) p i B hfuel (by omega) (hB i (by omega)) hs hinv
-    obtain ⟨_, hnz1, _, hdep, hfr, _, hi0⟩ := propagate_basic len d _ _ _ _ _ hprop
+      propagate_inv d o len rank (need i) hlen hacyc hmark MAX_NESTING_LEVEL p i B (by omega) (hB i (by omega))
+        hs hinv hn (fun _ _ _ => hneed.2 i (by omega))
+    obtain ⟨_, _, _, _, hdep, hfr, _, hi0⟩ := propagate_basic len d _ _ _ _ _ hprop
     have hz1 : ∀ (k : Nat) (b : Pos), k < i + 1 → q1[k]? = some b → b.chain = 0 := by
       intro k b hk hkb
       by_cases e : k = i
@@ -646,18 +679,22 @@ theorem finishLoop_inv (d : Dir) (o : Array Pos) (len : Nat) (rank : Nat → Nat
     · simp only [finishLoop, hprop, bind, Except.bind]; exact hloop
     · intro k b hk; exact hz2 k b (by omega)
 
-/-- what `position_finish_offsets` computes on an acyclic attachment structure whose marks attach backwards -/
-theorem finish_spec (d : Dir) (o : Array Pos) (len : Nat) (rank : Nat → Nat) (hlen : len ≤ o.size)
+/-- what `position_finish_offsets` computes on an acyclic attachment structure whose marks attach backwards
+    and whose pending chains never exceed the nesting budget -/
+theorem finish_spec (d : Dir) (o : Array Pos) (len : Nat) (rank : Nat → Nat) (need : Nat → Nat → Nat)
+    (hlen : len ≤ o.size)
     (hacyc : ∀ (k : Nat) (a : Pos) (j : Nat), o[k]? = some a → a.chain ≠ 0 → target k a.chain len = some j → rank j < rank k)
     (hmark : ∀ (k : Nat) (a : Pos) (j : Nat), o[k]? = some a → a.chain ≠ 0 → a.atype = ATTACH_MARK →
-      target k a.chain len = some j → j < k) :
-    ∃ q dm, positionFinishOffsets o len d true = .ok (q, dm) ∧ Same o q ∧ dm ≤ nz o + 1 ∧
+      target k a.chain len = some j → j < k)
+    (hneed : NeedOK o len need) :
+    ∃ q dm, positionFinishOffsets o len d true = .ok (q, dm) ∧ Same o q ∧ dm ≤ MAX_NESTING_LEVEL + 1 ∧
       ∀ (k : Nat) (a : Pos), k < len → o[k]? = some a →
         ∃ b, q[k]? = some b ∧ b.chain = 0 ∧ RelAt d o len q k a b := by
   obtain ⟨B, hB⟩ := rank_bound rank len
   have hinv0 : InvB d o len rank B o := fun k b _ h => Or.inl h
   obtain ⟨q, dm, hloop, hs, hinv, hz, hdm⟩ :=
-    finishLoop_inv d o len rank B hlen hB hacyc hmark len 0 o 0 (by omega) (Same.refl o) hinv0 (fun k b h => by omega)
+    finishLoop_inv d o len rank need B hlen hB hacyc hmark hneed len 0 o 0 (by omega) (Same.refl o) hinv0
+      (fun k b h => by omega)
   refine ⟨q, dm, ?_, hs, by omega, ?_⟩
   · simp [positionFinishOffsets, hloop]
   · intro k a hk hka
@@ -669,7 +706,47 @@ theorem finish_spec (d : Dir) (o : Array Pos) (len : Nat) (rank : Nat → Nat) (
       unfold RelAt; simp [hb0]
     · rw [hka] at ha'; cases ha'; exact hrel
 
+/-- the loop never nests deeper than the budget plus the outermost frame — for every array -/
+theorem finishLoop_depth (len : Nat) (d : Dir) :
+    ∀ (n i : Nat) (p q : Array Pos) (dmax dm : Nat), finishLoop p len d i n dmax = .ok (q, dm) →
+      dm ≤ max dmax (MAX_NESTING_LEVEL + 1) ∧ q.size = p.size := by
+  intro n
+  induction n with
+  | zero =>
+    intro i p q dmax dm h
+    simp only [finishLoop, Except.ok.injEq, Prod.mk.injEq] at h
+    obtain ⟨rfl, rfl⟩ := h
+    exact ⟨by omega, rfl⟩
+  | succ n ih =>
+    intro i p q dmax dm h
+    simp only [finishLoop, bind, Except.bind] at h
+    split at h
+    · cases h
+    · rename_i r hr
+      obtain ⟨p1, dep⟩ := r
+      obtain ⟨hs, _, _, _, hdep, _⟩ := propagate_basic len d _ _ _ _ _ hr
+      obtain ⟨h1, h2⟩ := ih _ _ _ _ _ h
+      exact ⟨by omega, by rw [h2, hs]⟩
 
+/-- a height function bounded by the nesting limit is a valid budget at every loop index -/
+theorem needOK_of_rank (o : Array Pos) (len : Nat) (rank : Nat → Nat)
+    (hacyc : ∀ (k : Nat) (a : Pos) (j : Nat), o[k]? = some a → a.chain ≠ 0 → target k a.chain len = some j → rank j < rank k)
+    (hdepth : ∀ k, k < len → rank k ≤ MAX_NESTING_LEVEL) : NeedOK o len (fun _ k => rank k) := by
+  refine ⟨?_, fun i hi => hdepth i hi⟩
+  intro i k a j _ _ hk hc ht
+  have := hacyc k a j hk hc ht
+  dsimp only
+  exact ⟨by omega, fun _ _ _ _ => this⟩
+
+/-- when every link points backwards the loop resolves glyph `j` before any `k > j`: one frame is enough -/
+theorem needOK_of_backward (o : Array Pos) (len : Nat)
+    (hback : ∀ (k : Nat) (a : Pos) (j : Nat), o[k]? = some a → a.chain ≠ 0 → target k a.chain len = some j → j < k) :
+    NeedOK o len (fun i k => k + 1 - i) := by
+  refine ⟨?_, fun i _ => by simp [MAX_NESTING_LEVEL]⟩
+  intro i k a j _ hik hk hc ht
+  have := hback k a j hk hc ht
+  dsimp only
+  exact ⟨by omega, fun _ hij _ _ => by omega⟩
 
 /-! ### pen model -/
 
@@ -772,17 +849,19 @@ theorem penOrigin_visible (q : Array Pos) (len : Nat) (d : Dir) (i : Nat) (b : P
       simp [Array.getElem?_extract, hi, hm, hiq, hbq]
     rw [h3]; rfl
 
-theorem mark_coincide (d : Dir) (o : Array Pos) (len : Nat) (rank : Nat → Nat) (hlen : len ≤ o.size)
+theorem mark_coincide (d : Dir) (o : Array Pos) (len : Nat) (rank : Nat → Nat) (need : Nat → Nat → Nat)
+    (hlen : len ≤ o.size)
     (hacyc : ∀ (k : Nat) (a : Pos) (j : Nat), o[k]? = some a → a.chain ≠ 0 → target k a.chain len = some j → rank j < rank k)
     (hmark : ∀ (k : Nat) (a : Pos) (j : Nat), o[k]? = some a → a.chain ≠ 0 → a.atype = ATTACH_MARK →
-      target k a.chain len = some j → j < k) :
-    ∃ q dm, positionFinishOffsets o len d true = .ok (q, dm) ∧ dm ≤ nz o + 1 ∧
+      target k a.chain len = some j → j < k)
+    (hneed : NeedOK o len need) :
+    ∃ q dm, positionFinishOffsets o len d true = .ok (q, dm) ∧ dm ≤ MAX_NESTING_LEVEL + 1 ∧
       ∀ (i : Nat) (a : Pos) (j : Nat), i < len → o[i]? = some a → a.chain ≠ 0 → a.atype = ATTACH_MARK →
         target i a.chain len = some j →
         penOrigin (visible q len d) (outIdx d len i) =
           ((penOrigin (visible q len d) (outIdx d len j)).1 + a.xo,
            (penOrigin (visible q len d) (outIdx d len j)).2 + a.yo) := by
-  obtain ⟨q, dm, hfin, hsame, hdm, hspec⟩ := finish_spec d o len rank hlen hacyc hmark
+  obtain ⟨q, dm, hfin, hsame, hdm, hspec⟩ := finish_spec d o len rank need hlen hacyc hmark hneed
   refine ⟨q, dm, hfin, hdm, ?_⟩
   intro i a j hi hoi hc hk ht
   obtain ⟨b, hb, _, hrel⟩ := hspec i a hi hoi
@@ -1031,7 +1110,7 @@ theorem cursiveMain_spec {p p1 : Array Pos} {i j : Nat} {d : Dir} {enX enY exX e
 
 /-- the state after `cursiveApply`, as far as the main axis is concerned -/
 theorem cursiveApply_main {p q : Array Pos} {i j dep : Nat} {d : Dir} {f : Bool} {enX enY exX exY : Int}
-    {pi pj : Pos} (h : cursiveApply p i j d f enX enY exX exY = .ok (q, dep)) (hij : i ≠ j)
+    {pi pj : Pos} (h : cursiveApply p i j d f enX enY exX exY = .ok (some (q, dep))) (hij : i ≠ j)
     (hpi : p[i]? = some pi) (hpj : p[j]? = some pj) :
     q.size = p.size ∧
     (∃ bi, q[i]? = some bi ∧ MainSame d (mainI d pi exX exY) bi) ∧
@@ -1040,17 +1119,22 @@ theorem cursiveApply_main {p q : Array Pos} {i j dep : Nat} {d : Dir} {f : Bool}
   unfold cursiveApply at h
   split at h
   · cases h
-  · rename_i p1 hmain
-    obtain ⟨hs1, hne1, hi1, hj1⟩ := cursiveMain_spec hmain hij hpi hpj
-    have hm := cursiveCross_main h
-    refine ⟨by rw [hm.1, hs1], hm.2 i _ hi1, hm.2 j _ hj1, ?_⟩
-    intro k b h1 h2 hk
-    exact hm.2 k b (by rw [hne1 k h1 h2]; exact hk)
-
-
+  · split at h
+    · cases h
+    · rename_i p1 hmain
+      split at h
+      · cases h
+      · rename_i r hcross
+        simp only [Except.ok.injEq, Option.some.injEq] at h
+        subst h
+        obtain ⟨hs1, hne1, hi1, hj1⟩ := cursiveMain_spec hmain hij hpi hpj
+        have hm := cursiveCross_main hcross
+        refine ⟨by rw [hm.1, hs1], hm.2 i _ hi1, hm.2 j _ hj1, ?_⟩
+        intro k b h1 h2 hk
+        exact hm.2 k b (by rw [hne1 k h1 h2]; exact hk)
 
 theorem cursive_coincide_ltr {p q : Array Pos} {i j len dep : Nat} {f : Bool} {enX enY exX exY : Int}
-    (h : cursiveApply p i j .ltr f enX enY exX exY = .ok (q, dep)) (hij : i < j) (hj : j < len) (hl : len ≤ p.size)
+    (h : cursiveApply p i j .ltr f enX enY exX exY = .ok (some (q, dep))) (hij : i < j) (hj : j < len) (hl : len ≤ p.size)
     (hz : ∀ (k : Nat) (b : Pos), i < k → k < j → p[k]? = some b → b.xa = 0) :
     (penOrigin (visible q len .ltr) (outIdx .ltr len j)).1 + enX =
       (penOrigin (visible q len .ltr) (outIdx .ltr len i)).1 + exX := by
@@ -1077,7 +1161,7 @@ theorem cursive_coincide_ltr {p q : Array Pos} {i j len dep : Nat} {f : Bool} {e
   omega
 
 theorem cursive_coincide_rtl {p q : Array Pos} {i j len dep : Nat} {f : Bool} {enX enY exX exY : Int}
-    (h : cursiveApply p i j .rtl f enX enY exX exY = .ok (q, dep)) (hij : i < j) (hj : j < len) (hl : len ≤ p.size)
+    (h : cursiveApply p i j .rtl f enX enY exX exY = .ok (some (q, dep))) (hij : i < j) (hj : j < len) (hl : len ≤ p.size)
     (hz : ∀ (k : Nat) (b : Pos), i < k → k < j → p[k]? = some b → b.xa = 0) :
     (penOrigin (visible q len .rtl) (outIdx .rtl len j)).1 + enX =
       (penOrigin (visible q len .rtl) (outIdx .rtl len i)).1 + exX := by
@@ -1104,7 +1188,7 @@ theorem cursive_coincide_rtl {p q : Array Pos} {i j len dep : Nat} {f : Bool} {e
   omega
 
 theorem cursive_coincide_ttb {p q : Array Pos} {i j len dep : Nat} {f : Bool} {enX enY exX exY : Int}
-    (h : cursiveApply p i j .ttb f enX enY exX exY = .ok (q, dep)) (hij : i < j) (hj : j < len) (hl : len ≤ p.size)
+    (h : cursiveApply p i j .ttb f enX enY exX exY = .ok (some (q, dep))) (hij : i < j) (hj : j < len) (hl : len ≤ p.size)
     (hz : ∀ (k : Nat) (b : Pos), i < k → k < j → p[k]? = some b → b.ya = 0) :
     (penOrigin (visible q len .ttb) (outIdx .ttb len j)).2 + enY =
       (penOrigin (visible q len .ttb) (outIdx .ttb len i)).2 + exY := by
@@ -1133,7 +1217,7 @@ theorem cursive_coincide_ttb {p q : Array Pos} {i j len dep : Nat} {f : Bool} {e
 /-- bottom-to-top: `pos[j].y_advance = entry_y` ignores `pos[j].y_offset`, so the anchors coincide only
     when the entry-side glyph had no vertical offset (inherited from HarfBuzz). -/
 theorem cursive_coincide_btt {p q : Array Pos} {i j len dep : Nat} {f : Bool} {enX enY exX exY : Int} {pj : Pos}
-    (h : cursiveApply p i j .btt f enX enY exX exY = .ok (q, dep)) (hij : i < j) (hj : j < len) (hl : len ≤ p.size)
+    (h : cursiveApply p i j .btt f enX enY exX exY = .ok (some (q, dep))) (hij : i < j) (hj : j < len) (hl : len ≤ p.size)
     (hz : ∀ (k : Nat) (b : Pos), i < k → k < j → p[k]? = some b → b.ya = 0)
     (hpj : p[j]? = some pj) :
     (penOrigin (visible q len .btt) (outIdx .btt len j)).2 + enY =
@@ -1159,75 +1243,54 @@ theorem cursive_coincide_btt {p q : Array Pos} {i j len dep : Nat} {f : Bool} {e
   omega
 
 
-/-! ### recursion depth is unbounded (D13) -/
+/-! ### `reverse_cursive_minor_offset` has no nesting budget -/
 
 
-theorem target_succ {i len : Nat} (h : i + 1 < len) : target i 1 len = some (i + 1) := by
-  unfold target
-  simp only
-  have h1 : ¬ ((i : Int) + 1 < 0) := by omega
-  have h2 : ((i : Int) + 1).toNat = i + 1 := by omega
-  simp only [h1, if_false, h2]
-  have : ¬ (i + 1 ≥ len) := by omega
-  simp [this]
-
-/-- a forward cursive chain `i → i+1 → … → len-1` makes `propagate` nest once per link -/
-theorem propagate_depth_chain (d : Dir) (len : Nat) :
-    ∀ (m i fuel : Nat) (p : Array Pos), i + m + 1 = len → len ≤ p.size → m < fuel →
-      (∀ b : Pos, p[len - 1]? = some b → b.chain = 0) →
-      (∀ (k : Nat) (b : Pos), i ≤ k → k + 1 < len → p[k]? = some b → b.chain = 1 ∧ b.atype = ATTACH_CURSIVE) →
-      ∃ q, propagate fuel p len i d = .ok (q, m + 1) := by
+/-- a forward cursive chain `i → i+1 → … → size-1` makes `reverse_cursive_minor_offset` nest once per link
+    (it has no nesting budget) -/
+theorem reverse_depth_chain (d : Dir) (np : Nat) :
+    ∀ (m i fuel : Nat) (p : Array Pos), i + m + 1 = p.size → m < fuel → (np ≤ i ∨ p.size ≤ np) →
+      (∀ b : Pos, p[p.size - 1]? = some b → b.chain = 0) →
+      (∀ (k : Nat) (b : Pos), i ≤ k → k + 1 < p.size → p[k]? = some b → b.chain = 1 ∧ b.atype = ATTACH_CURSIVE) →
+      ∃ q, reverseCursiveMinorOffset fuel p i d np = .ok (q, m + 1) := by
   intro m
   induction m with
   | zero =>
-    intro i fuel p him hlen hf hlast _
+    intro i fuel p him hf hnp hlast _
     obtain ⟨fuel, rfl⟩ : ∃ f, fuel = f + 1 := ⟨fuel - 1, by omega⟩
     have hi : i < p.size := by omega
     have hpi : p[i]? = some p[i] := by simp [hi]
-    have : len - 1 = i := by omega
+    have : p.size - 1 = i := by omega
     have hc := hlast p[i] (by rw [this]; exact hpi)
-    unfold propagate
+    unfold reverseCursiveMinorOffset
     rw [get_ok_iff.mpr hpi]
     simp [hc]
   | succ m ih =>
-    intro i fuel p him hlen hf hlast hch
+    intro i fuel p him hf hnp hlast hch
     obtain ⟨fuel, rfl⟩ : ∃ f, fuel = f + 1 := ⟨fuel - 1, by omega⟩
     have hi : i < p.size := by omega
     have hpi : p[i]? = some p[i] := by simp [hi]
     generalize p[i] = pi at hpi
     obtain ⟨hc, hty⟩ := hch i pi (Nat.le_refl _) (by omega) hpi
+    have hsz1 : (put p i { pi with chain := 0 }).size = p.size := by simp
     have hne : ∀ k, k ≠ i → (put p i { pi with chain := 0 })[k]? = p[k]? := fun k hk => put_get?_ne _ _ (Ne.symm hk)
-    obtain ⟨p2, hrec⟩ := ih (i + 1) fuel (put p i { pi with chain := 0 }) (by omega) (by simpa using hlen) (by omega)
-      (fun b hb => hlast b (by rw [← hne (len - 1) (by omega)]; exact hb))
-      (fun k b h1 h2 hb => hch k b (by omega) h2 (by rw [← hne k (by omega)]; exact hb))
-    obtain ⟨hs2, _⟩ := propagate_basic len d _ _ _ _ _ hrec
-    have hi2 : i < p2.size := by rw [hs2]; simpa using hi
-    have hj2 : i + 1 < p2.size := by rw [hs2]; simp; omega
-    obtain ⟨q, hq⟩ := attachStep_total (d := d) (kind := pi.atype) (p := p2) hi2 hj2
-      (by intro h; rw [hty] at h; exact absurd h (by decide))
-    refine ⟨q, ?_⟩
-    unfold propagate
+    obtain ⟨p2, hrec⟩ := ih (i + 1) fuel (put p i { pi with chain := 0 }) (by rw [hsz1]; omega) (by omega)
+      (by rw [hsz1]; omega)
+      (fun b hb => hlast b (by rw [hsz1, hne (p.size - 1) (by omega)] at hb; exact hb))
+      (fun k b h1 h2 hb => hch k b (by omega) (by rw [hsz1] at h2; exact h2) (by rw [← hne k (by omega)]; exact hb))
+    have hs2 := (reverseCursive_main d np _ _ _ _ _ hrec).1.1
+    have hi2 : i < p2.size := by rw [hs2, hsz1]; exact hi
+    have hj2 : i + 1 < p2.size := by rw [hs2, hsz1]; omega
+    unfold reverseCursiveMinorOffset
     rw [get_ok_iff.mpr hpi]
-    have hc0 : ¬ pi.chain = 0 := by omega
-    simp only [hc, target_succ (show i + 1 < len by omega), hrec, hq]
-    simp
+    have h1 : ¬ (pi.chain = 0 ∨ pi.atype &&& ATTACH_CURSIVE = 0) := by
+      rw [hc, hty]; decide
+    have h2 : ¬ ((i : Int) + pi.chain < 0) := by omega
+    have h3 : ((i : Int) + pi.chain).toNat = i + 1 := by omega
+    have h4 : ¬ (i + 1 = np) := by omega
+    simp only [h1, if_false, h2, h3, h4, hrec, get_of_lt hi2, get_of_lt hj2]
+    exact ⟨_, rfl⟩
 
-theorem finishLoop_mono (len : Nat) (d : Dir) :
-    ∀ (n i : Nat) (p q : Array Pos) (dmax dm : Nat), finishLoop p len d i n dmax = .ok (q, dm) → dmax ≤ dm := by
-  intro n
-  induction n with
-  | zero =>
-    intro i p q dmax dm h
-    simp only [finishLoop, Except.ok.injEq, Prod.mk.injEq] at h; omega
-  | succ n ih =>
-    intro i p q dmax dm h
-    simp only [finishLoop, bind, Except.bind] at h
-    split at h
-    · cases h
-    · rename_i r _
-      obtain ⟨p1, dep⟩ := r
-      have := ih _ _ _ _ _ h
-      omega
 
 /-- the array `[→1, →1, …, →1, root]` of forward cursive links -/
 def fwdChain (n : Nat) : Array Pos :=
@@ -1237,51 +1300,26 @@ theorem fwdChain_get? (n k : Nat) (h : k < n) :
     (fwdChain n)[k]? = some (if k + 1 < n then { chain := 1, atype := ATTACH_CURSIVE } else {}) := by
   simp [fwdChain, h]
 
-theorem fwdChain_depth (n : Nat) (hn : 1 ≤ n) (d : Dir) :
-    ∃ q dm, positionFinishOffsets (fwdChain n) n d true = .ok (q, dm) ∧ n ≤ dm := by
+theorem fwdChain_reverse_depth (n : Nat) (hn : 2 ≤ n) (d : Dir) :
+    ∃ q, reverseCursiveMinorOffset (fuelFor (fwdChain n)) (fwdChain n) 1 d 0 = .ok (q, n - 1) := by
   have hsz : (fwdChain n).size = n := by simp [fwdChain]
-  -- the first iteration already nests n deep
-  obtain ⟨q1, h1⟩ := propagate_depth_chain d n (n - 1) 0 (fuelFor (fwdChain n)) (fwdChain n) (by omega) (by omega)
-    (by unfold fuelFor; omega)
-    (by intro b hb; rw [fwdChain_get? n (n - 1) (by omega)] at hb
+  have := reverse_depth_chain d 0 (n - 2) 1 (fuelFor (fwdChain n)) (fwdChain n) (by omega)
+    (by unfold fuelFor; omega) (Or.inl (by omega))
+    (by intro b hb; rw [hsz, fwdChain_get? n (n - 1) (by omega)] at hb
         have : ¬ (n - 1 + 1 < n) := by omega
         simp only [this, if_false, Option.some.injEq] at hb; subst hb; rfl)
-    (by intro k b _ h2 hb; rw [fwdChain_get? n k (by omega)] at hb
+    (by intro k b _ h2 hb; rw [hsz] at h2; rw [fwdChain_get? n k (by omega)] at hb
         simp only [h2, if_true, Option.some.injEq] at hb; subst hb; exact ⟨rfl, rfl⟩)
-  -- the whole loop succeeds (acyclic: rank k = n - k; no marks)
-  obtain ⟨q, dm, hfin, _, _, _⟩ := finish_spec d (fwdChain n) n (fun k => n - k) (by omega)
-    (by intro k a j hk hc ht
-        have hkn : k < n := by have := lt_of_get? hk; omega
-        rw [fwdChain_get? n k hkn] at hk
-        obtain ⟨hj, hjl⟩ := target_some ht
-        split at hk
-        · simp only [Option.some.injEq] at hk; subst hk; simp only at hj; omega
-        · simp only [Option.some.injEq] at hk; subst hk; exact absurd rfl hc)
-    (by intro k a j hk hc hty ht
-        have hkn : k < n := by have := lt_of_get? hk; omega
-        rw [fwdChain_get? n k hkn] at hk
-        split at hk
-        · simp only [Option.some.injEq] at hk; subst hk; exact absurd hty (by decide)
-        · simp only [Option.some.injEq] at hk; subst hk; exact absurd rfl hc)
-  refine ⟨q, dm, hfin, ?_⟩
-  have hn' : n = (n - 1) + 1 := by omega
-  unfold positionFinishOffsets at hfin
-  simp only [if_true] at hfin
-  rw [hn'] at hfin
-  simp only [finishLoop, bind, Except.bind] at hfin
-  rw [← hn'] at hfin
-  rw [h1] at hfin
-  simp only at hfin
-  have := finishLoop_mono n d _ _ _ _ _ _ hfin
-  omega
-
-
+  have e : n - 2 + 1 = n - 1 := by omega
+  rw [e] at this; exact this
 
 /-- cross-axis result of `position_finish_offsets` for a cursively attached glyph, and what stays put -/
-theorem cursive_cross (d : Dir) (o : Array Pos) (len : Nat) (rank : Nat → Nat) (hlen : len ≤ o.size)
+theorem cursive_cross (d : Dir) (o : Array Pos) (len : Nat) (rank : Nat → Nat) (need : Nat → Nat → Nat)
+    (hlen : len ≤ o.size)
     (hacyc : ∀ (k : Nat) (a : Pos) (j : Nat), o[k]? = some a → a.chain ≠ 0 → target k a.chain len = some j → rank j < rank k)
     (hmark : ∀ (k : Nat) (a : Pos) (j : Nat), o[k]? = some a → a.chain ≠ 0 → a.atype = ATTACH_MARK →
-      target k a.chain len = some j → j < k) :
+      target k a.chain len = some j → j < k)
+    (hneed : NeedOK o len need) :
     ∃ q dm, positionFinishOffsets o len d true = .ok (q, dm) ∧ q.size = o.size ∧
       -- advances never change
       (∀ (k : Nat) (a : Pos), o[k]? = some a → ∃ b, q[k]? = some b ∧ b.xa = a.xa ∧ b.ya = a.ya) ∧
@@ -1291,7 +1329,7 @@ theorem cursive_cross (d : Dir) (o : Array Pos) (len : Nat) (rank : Nat → Nat)
       (∀ (i : Nat) (a : Pos) (j : Nat), i < len → o[i]? = some a → a.chain ≠ 0 → a.atype = ATTACH_CURSIVE →
         target i a.chain len = some j → ∃ b c, q[i]? = some b ∧ q[j]? = some c ∧
           (if d.isHorizontal then b.xo = a.xo ∧ b.yo = c.yo + a.yo else b.yo = a.yo ∧ b.xo = c.xo + a.xo)) := by
-  obtain ⟨q, dm, hfin, hsame, _, hspec⟩ := finish_spec d o len rank hlen hacyc hmark
+  obtain ⟨q, dm, hfin, hsame, _, hspec⟩ := finish_spec d o len rank need hlen hacyc hmark hneed
   refine ⟨q, dm, hfin, hsame.1, ?_, ?_, ?_⟩
   · intro k a hk
     obtain ⟨b, hb, hst⟩ := hsame.2 k a hk
@@ -1316,25 +1354,190 @@ theorem cursive_cross (d : Dir) (o : Array Pos) (len : Nat) (rank : Nat → Nat)
     · simp only [hh, if_true, Prod.mk.injEq] at hoff ⊢
       omega
 
+theorem wrap16_id {x : Int} (h : x.natAbs ≤ CHAIN_MAX) : wrap16 x = x := by
+  unfold CHAIN_MAX at h; unfold wrap16; omega
+
 theorem markArrayApply_spec {p q : Array Pos} {idx gp : Nat} {mx my bx byy : Int} {a : Pos}
-    (h : markArrayApply p idx gp mx my bx byy = .ok q) (ha : p[idx]? = some a)
-    (hgp : gp < idx) (hr : idx - gp < 32768) :
+    (h : markArrayApply p idx gp mx my bx byy = .ok (some q)) (ha : p[idx]? = some a) (hgp : gp < idx) :
+    idx - gp ≤ CHAIN_MAX ∧
     q = put p idx { a with xo := bx - mx, yo := byy - my, atype := ATTACH_MARK, chain := (gp : Int) - (idx : Int) } ∧
     target idx ((gp : Int) - (idx : Int)) p.size = some gp := by
   unfold markArrayApply at h
-  simp only [bind, Except.bind, get_ok_iff.mpr ha, Except.ok.injEq] at h
-  have hw : wrap16 ((gp : Int) - (idx : Int)) = (gp : Int) - (idx : Int) := by unfold wrap16; omega
-  rw [hw] at h
-  refine ⟨h.symm, ?_⟩
-  have hi := lt_of_get? ha
-  unfold target
-  simp only
-  have h1 : ¬ ((idx : Int) + ((gp : Int) - (idx : Int)) < 0) := by omega
-  have h2 : ((idx : Int) + ((gp : Int) - (idx : Int))).toNat = gp := by omega
-  simp only [h1, if_false, h2]
-  have : ¬ gp ≥ p.size := by omega
-  simp [this]
+  split at h
+  · cases h
+  · rename_i hd
+    simp only [get_ok_iff.mpr ha, Except.ok.injEq, Option.some.injEq] at h
+    have hd' : ((gp : Int) - (idx : Int)).natAbs ≤ CHAIN_MAX := by omega
+    rw [wrap16_id hd'] at h
+    refine ⟨by omega, h.symm, ?_⟩
+    have hi := lt_of_get? ha
+    unfold target
+    simp only
+    have h1 : ¬ ((idx : Int) + ((gp : Int) - (idx : Int)) < 0) := by omega
+    have h2 : ((idx : Int) + ((gp : Int) - (idx : Int))).toNat = gp := by omega
+    simp only [h1, if_false, h2]
+    have : ¬ gp ≥ p.size := by omega
+    simp [this]
 
+/-! ### no wrapped link is ever stored (D13, second half, fixed) -/
+
+/-- every stored `attach_chain` is a genuine distance: within `±i16::MAX`, so neither the `as i16` cast nor
+    the `i16` negation of `reverse_cursive_minor_offset` ever wraps -/
+def ChainOK (p : Array Pos) : Prop :=
+  ∀ (k : Nat) (b : Pos), p[k]? = some b → b.chain.natAbs ≤ CHAIN_MAX
+
+theorem ChainOK.put {p : Array Pos} {i : Nat} {v : Pos} (h : ChainOK p) (hv : v.chain.natAbs ≤ CHAIN_MAX) :
+    ChainOK (put p i v) := by
+  intro k b hk
+  rw [put_get?] at hk
+  split at hk
+  · split at hk
+    · cases hk; exact hv
+    · cases hk
+  · exact h k b hk
+
+theorem markArrayApply_chainOK {p q : Array Pos} {idx gp : Nat} {mx my bx byy : Int}
+    (h : markArrayApply p idx gp mx my bx byy = .ok (some q)) (hp : ChainOK p) : ChainOK q := by
+  unfold markArrayApply at h
+  split at h
+  · cases h
+  · rename_i hd
+    split at h
+    · cases h
+    · simp only [Except.ok.injEq, Option.some.injEq] at h
+      subst h
+      have hd' : ((gp : Int) - (idx : Int)).natAbs ≤ CHAIN_MAX := by omega
+      apply hp.put
+      simp only
+      rw [wrap16_id hd']; exact hd'
+
+theorem reverseCursive_chainOK (d : Dir) (np : Nat) :
+    ∀ (fuel : Nat) (p q : Array Pos) (i dep : Nat),
+      reverseCursiveMinorOffset fuel p i d np = .ok (q, dep) → ChainOK p → ChainOK q := by
+  intro fuel
+  induction fuel with
+  | zero => intro p q i dep h; simp [reverseCursiveMinorOffset] at h
+  | succ fuel ih =>
+    intro p q i dep h hp
+    unfold reverseCursiveMinorOffset at h
+    split at h
+    · cases h
+    · rename_i pi hg
+      have hpi := get_ok_iff.mp hg
+      have hci := hp i pi hpi
+      split at h
+      · simp only [Except.ok.injEq, Prod.mk.injEq] at h
+        obtain ⟨rfl, rfl⟩ := h; exact hp
+      · have hp1 : ChainOK (put p i { pi with chain := 0 }) := hp.put (by simp)
+        simp only at h
+        split at h
+        · cases h
+        · split at h
+          · simp only [Except.ok.injEq, Prod.mk.injEq] at h
+            obtain ⟨rfl, rfl⟩ := h; exact hp1
+          · split at h
+            · cases h
+            · rename_i p2 dep' hrec
+              have hp2 := ih _ _ _ _ hrec hp1
+              split at h
+              · cases h
+              · cases h
+              · simp only [Except.ok.injEq, Prod.mk.injEq] at h
+                obtain ⟨rfl, rfl⟩ := h
+                apply hp2.put
+                simp only
+                have : (-pi.chain).natAbs ≤ CHAIN_MAX := by omega
+                rw [wrap16_id this]; exact this
+
+theorem cursiveMain_chainOK {p p1 : Array Pos} {i j : Nat} {d : Dir} {enX enY exX exY : Int}
+    (h : cursiveMain p i j d enX enY exX exY = .ok p1) (hp : ChainOK p) : ChainOK p1 := by
+  unfold cursiveMain at h
+  split at h
+  · cases h
+  · cases h
+  · rename_i pi pj hgi hgj
+    have hci := hp i pi (get_ok_iff.mp hgi)
+    have step : ∀ (vi : Pos), vi.chain = pi.chain → ChainOK (put p i vi) :=
+      fun vi hvi => hp.put (by rw [hvi]; exact hci)
+    cases d <;> simp only at h
+    · split at h
+      · cases h
+      · rename_i pj' hg'
+        simp only [Except.ok.injEq] at h; subst h
+        have hj' := get_ok_iff.mp hg'
+        exact (step _ (by rfl)).put ((step _ (by rfl)) j pj' hj')
+    · split at h
+      · cases h
+      · rename_i pj' hg'
+        simp only [Except.ok.injEq] at h; subst h
+        have hj' := get_ok_iff.mp hg'
+        exact (step _ (by rfl)).put ((step _ (by rfl)) j pj' hj')
+    · split at h
+      · cases h
+      · rename_i pj' hg'
+        simp only [Except.ok.injEq] at h; subst h
+        have hj' := get_ok_iff.mp hg'
+        exact (step _ (by rfl)).put ((step _ (by rfl)) j pj' hj')
+    · split at h
+      · cases h
+      · rename_i pj' hg'
+        simp only [Except.ok.injEq] at h; subst h
+        have hj' := get_ok_iff.mp hg'
+        exact (step _ (by rfl)).put ((step _ (by rfl)) j pj' hj')
+    · simp only [Except.ok.injEq] at h; subst h; exact hp
+
+theorem cursiveAttach_chainOK {p q : Array Pos} {c pa dep : Nat} {d : Dir} {xOff yOff : Int}
+    (h : cursiveAttach p c pa d xOff yOff = .ok (q, dep)) (hp : ChainOK p)
+    (hd : ((pa : Int) - (c : Int)).natAbs ≤ CHAIN_MAX) : ChainOK q := by
+  unfold cursiveAttach at h
+  split at h
+  · cases h
+  · rename_i p2 dep' hrev
+    have hp2 := reverseCursive_chainOK d _ _ _ _ _ _ hrev hp
+    split at h
+    · cases h
+    · rename_i pc hgc
+      simp only at h
+      have hp3 : ChainOK (put p2 c
+          (if d.isHorizontal = true then
+            { pc with atype := ATTACH_CURSIVE, chain := wrap16 ((pa : Int) - (c : Int)), yo := yOff }
+           else
+            { pc with atype := ATTACH_CURSIVE, chain := wrap16 ((pa : Int) - (c : Int)), xo := xOff })) := by
+        apply hp2.put
+        cases d.isHorizontal <;> simp only [Bool.false_eq_true, if_false, if_true] <;> rw [wrap16_id hd] <;> exact hd
+      split at h
+      · cases h
+      · rename_i pp hgp
+        split at h
+        · simp only [Except.ok.injEq, Prod.mk.injEq] at h
+          obtain ⟨rfl, _⟩ := h
+          apply hp3.put
+          cases d.isHorizontal <;> simp
+        · simp only [Except.ok.injEq, Prod.mk.injEq] at h
+          obtain ⟨rfl, _⟩ := h
+          exact hp3
+
+theorem cursiveApply_chainOK {p q : Array Pos} {i j dep : Nat} {d : Dir} {f : Bool} {enX enY exX exY : Int}
+    (h : cursiveApply p i j d f enX enY exX exY = .ok (some (q, dep))) (hp : ChainOK p) : ChainOK q := by
+  unfold cursiveApply at h
+  split at h
+  · cases h
+  · rename_i hg
+    split at h
+    · cases h
+    · rename_i p1 hmain
+      have hp1 := cursiveMain_chainOK hmain hp
+      split at h
+      · cases h
+      · rename_i r hcross
+        simp only [Except.ok.injEq, Option.some.injEq] at h
+        subst h
+        unfold cursiveCross at hcross
+        have hd1 : ((j : Int) - (i : Int)).natAbs ≤ CHAIN_MAX := by omega
+        have hd2 : ((i : Int) - (j : Int)).natAbs ≤ CHAIN_MAX := by omega
+        split at hcross
+        · exact cursiveAttach_chainOK hcross hp1 hd1
+        · exact cursiveAttach_chainOK hcross hp1 hd2
 
 end RbModel.Gpos
 
@@ -1732,10 +1935,9 @@ theorem machineKern_pos_size {infos : Array KInfo} {p q : Array Pos} {len mask :
     {kernOf : Nat → Nat → Int} (h : machineKern infos p len mask d cs kernOf = .ok (q, f)) : q.size = p.size :=
   (machineKernLoop_frame infos len mask _ cs kernOf _ _ _ _ _ _ h).1
 
-/-- one subtable keeps the glyph order when the text is forward or kerning is requested -/
+/-- one subtable keeps the glyph order (the two reverses always come in pairs) -/
 theorem kernStep_infos (requested : Bool) (mask : Nat) (d : Dir) (sm : KSub → KBuf → KBuf)
     (hsm : ∀ s b, (sm s b).infos = b.infos ∧ (sm s b).len = b.len)
-    (hok : d.isForward = true ∨ requested = true)
     (seen seen' : Bool) (b b' : KBuf) (s : KSub) (hlen : b.len ≤ b.infos.size)
     (h : kernStep requested mask d sm (seen, b) s = .ok (seen', b')) :
     b'.infos = b.infos ∧ b'.len = b.len := by
@@ -1753,40 +1955,32 @@ theorem kernStep_infos (requested : Bool) (mask : Nat) (d : Dir) (sm : KSub → 
         rw [← hb1]; split <;> exact ⟨rfl, rfl⟩
       obtain ⟨sn1, b1⟩ := st1
       simp only at h h1
-      cases hrev : d.isBackward
-      · -- forward: no reversal at all
-        simp only [hrev, Bool.false_eq_true, if_false] at h
-        split at h
-        · simp only [Except.ok.injEq, Prod.mk.injEq] at h; obtain ⟨_, rfl⟩ := h
-          rw [(hsm s b1).1, (hsm s b1).2]; exact h1
-        · split at h
-          · simp only [Except.ok.injEq, Prod.mk.injEq] at h; obtain ⟨_, rfl⟩ := h; exact h1
+      have hl1 : b1.len ≤ b1.infos.size := by rw [h1.1, h1.2]; exact hlen
+      split at h
+      · simp only [Except.ok.injEq, Prod.mk.injEq] at h; obtain ⟨_, rfl⟩ := h; exact h1
+      · cases hrev : d.isBackward
+        · simp only [hrev, Bool.false_eq_true, if_false] at h
+          split at h
+          · simp only [Except.ok.injEq, Prod.mk.injEq] at h; obtain ⟨_, rfl⟩ := h
+            rw [(hsm s b1).1, (hsm s b1).2]; exact h1
           · split at h
             · cases h
             · simp only [Except.ok.injEq, Prod.mk.injEq] at h; obtain ⟨_, rfl⟩ := h; exact h1
-      · -- backward: reversed twice
-        have hreq : requested = true := by
-          rcases hok with hf | hr
-          · simp [Dir.isBackward, hf] at hrev
-          · exact hr
-        simp only [hrev, if_true] at h
-        have hl1 : b1.len ≤ b1.infos.size := by rw [h1.1, h1.2]; exact hlen
-        split at h
-        · simp only [Except.ok.injEq, Prod.mk.injEq] at h; obtain ⟨_, rfl⟩ := h
-          simp only [KBuf.reverse]
-          rw [(hsm s _).1, (hsm s _).2]
-          simp only
-          rw [reversePos_involutive _ _ hl1]; exact h1
-        · simp only [hreq, Bool.not_true, Bool.false_eq_true, if_false] at h
+        · simp only [hrev, if_true] at h
           split at h
-          · cases h
           · simp only [Except.ok.injEq, Prod.mk.injEq] at h; obtain ⟨_, rfl⟩ := h
             simp only [KBuf.reverse]
+            rw [(hsm s _).1, (hsm s _).2]
+            simp only
             rw [reversePos_involutive _ _ hl1]; exact h1
+          · split at h
+            · cases h
+            · simp only [Except.ok.injEq, Prod.mk.injEq] at h; obtain ⟨_, rfl⟩ := h
+              simp only [KBuf.reverse]
+              rw [reversePos_involutive _ _ hl1]; exact h1
 
 theorem kernDriver_infos (requested : Bool) (mask : Nat) (d : Dir) (sm : KSub → KBuf → KBuf)
-    (hsm : ∀ s b, (sm s b).infos = b.infos ∧ (sm s b).len = b.len)
-    (hok : d.isForward = true ∨ requested = true) :
+    (hsm : ∀ s b, (sm s b).infos = b.infos ∧ (sm s b).len = b.len) :
     ∀ (subs : List KSub) (seen : Bool) (b : KBuf) (st : Bool × KBuf), b.len ≤ b.infos.size →
       subs.foldlM (kernStep requested mask d sm) (seen, b) = .ok st →
       st.2.infos = b.infos ∧ st.2.len = b.len := by
@@ -1803,23 +1997,21 @@ theorem kernDriver_infos (requested : Bool) (mask : Nat) (d : Dir) (sm : KSub 
     · cases h
     · rename_i st1 hst1
       obtain ⟨sn1, b1⟩ := st1
-      obtain ⟨e1, e2⟩ := kernStep_infos requested mask d sm hsm hok seen sn1 b b1 s hlen hst1
+      obtain ⟨e1, e2⟩ := kernStep_infos requested mask d sm hsm seen sn1 b b1 s hlen hst1
       obtain ⟨e3, e4⟩ := ih sn1 b1 st (by rw [e1, e2]; exact hlen) h
       exact ⟨by rw [e3, e1], by rw [e4, e2]⟩
-
 
 /-- the four metric fields of a position -/
 def metrics (q : Pos) : Int × Int × Int × Int := (q.xa, q.ya, q.xo, q.yo)
 
-/-- kerning switched off, forward text, no state-machine subtable: one subtable changes neither the order
-    nor any advance / offset (it may still mark the glyphs as a cross-stream chain) -/
-theorem kernStep_off (mask : Nat) (d : Dir) (sm : KSub → KBuf → KBuf) (hf : d.isForward = true)
+/-- kerning switched off, no state-machine subtable: one subtable changes neither the order nor any
+    advance / offset, in every direction (it may still mark the glyphs as a cross-stream chain) -/
+theorem kernStep_off (mask : Nat) (d : Dir) (sm : KSub → KBuf → KBuf)
     (seen seen' : Bool) (b b' : KBuf) (s : KSub) (hs : s.stateMachine = false)
     (h : kernStep false mask d sm (seen, b) s = .ok (seen', b')) :
     b'.infos = b.infos ∧ b'.len = b.len ∧ b'.pos.map metrics = b.pos.map metrics := by
   unfold kernStep at h
-  have hb : d.isBackward = false := by simp [Dir.isBackward, hf]
-  simp only [hb, hs, Bool.false_eq_true, if_false, Bool.not_false, if_true] at h
+  simp only [hs, Bool.false_eq_true, if_false, Bool.not_false, Bool.and_self, if_true] at h
   split at h
   · simp only [Except.ok.injEq, Prod.mk.injEq] at h; obtain ⟨_, rfl⟩ := h; exact ⟨rfl, rfl, rfl⟩
   · split at h
@@ -1831,7 +2023,7 @@ theorem kernStep_off (mask : Nat) (d : Dir) (sm : KSub → KBuf → KBuf) (hf : 
         congr 1
       · simp only [Except.ok.injEq, Prod.mk.injEq] at h; obtain ⟨_, rfl⟩ := h; exact ⟨rfl, rfl, rfl⟩
 
-theorem kernDriver_off (mask : Nat) (d : Dir) (sm : KSub → KBuf → KBuf) (hf : d.isForward = true) :
+theorem kernDriver_off (mask : Nat) (d : Dir) (sm : KSub → KBuf → KBuf) :
     ∀ (subs : List KSub) (seen : Bool) (b : KBuf) (st : Bool × KBuf), (∀ s ∈ subs, s.stateMachine = false) →
       subs.foldlM (kernStep false mask d sm) (seen, b) = .ok st →
       st.2.infos = b.infos ∧ st.2.len = b.len ∧ st.2.pos.map metrics = b.pos.map metrics := by
@@ -1848,9 +2040,8 @@ theorem kernDriver_off (mask : Nat) (d : Dir) (sm : KSub → KBuf → KBuf) (hf 
     · cases h
     · rename_i st1 hst1
       obtain ⟨sn1, b1⟩ := st1
-      obtain ⟨e1, e2, e3⟩ := kernStep_off mask d sm hf seen sn1 b b1 s (hs s (by simp)) hst1
+      obtain ⟨e1, e2, e3⟩ := kernStep_off mask d sm seen sn1 b b1 s (hs s (by simp)) hst1
       obtain ⟨e4, e5, e6⟩ := ih sn1 b1 st (fun s' hs' => hs s' (by simp [hs'])) h
       exact ⟨by rw [e4, e1], by rw [e5, e2], by rw [e6, e3]⟩
-
 
 end RbModel.Kern
